@@ -75,6 +75,10 @@ type Driver struct {
 	wg     sync.WaitGroup
 	ReadWG sync.WaitGroup
 
+	// Open counts the accepted publishes whose exchange did not close yet;
+	// guarded by World.Mu.
+	Open int
+
 	// reader control
 	Manual     bool
 	allow      int
@@ -149,6 +153,9 @@ func (d *Driver) PublishPub(p *Pub) *Pub {
 	}
 	// register the watcher before the return event, so that idle means watched
 	if err == nil {
+		d.W.Mu.Lock()
+		d.Open++
+		d.W.Mu.Unlock()
 		d.wg.Add(1)
 		go d.watch(p, x)
 	}
@@ -163,6 +170,7 @@ func (d *Driver) watch(p *Pub, x <-chan error) {
 		d.W.Mu.Lock()
 		if !ok {
 			p.ClosedSeq = d.W.log(Event{Kind: "xchg.close", ID: p.N})
+			d.Open--
 			d.W.Mu.Unlock()
 			d.W.cond.Broadcast()
 			return
@@ -338,3 +346,7 @@ func (d *Driver) CloseAndWait() bool {
 	}
 	return true
 }
+
+// AllClosed tells whether every accepted publish had its exchange closed;
+// World.Mu must be held (use inside WaitUntil).
+func (d *Driver) AllClosed() bool { return d.Open == 0 }
